@@ -233,6 +233,46 @@ func c03Check(ctx *vfCtx, c c03Case) {
 	if ctx.Failed() {
 		return
 	}
+	// --- the headered form of a parsed event can be taken again (and again): it is the same text each
+	// time, and taking it leaves the event's own JSON alone (an event parsed from a larger buffer — the
+	// headered form, a slice with spare capacity — has room behind its JSON that nothing may write to)
+	roomy := append(make([]byte, 0, len(js)+64), js...)
+	var pr PDU
+	if vfCatch(ctx, "C03/trusted-roomy", func() { pr, _ = impl.NewEventFromTrustedJSON(roomy, false) }) {
+		return
+	}
+	for label, e := range map[string]PDU{"headered": ph, "trusted-with-spare-capacity": pr, "built": ev} {
+		if e == nil {
+			continue
+		}
+		before := string(e.JSON())
+		var h1, h2 []byte
+		var e1, e2 error
+		if vfCatch(ctx, "C03/headered-again/"+label, func() {
+			h1, e1 = e.ToHeaderedJSON()
+			h1 = append([]byte(nil), h1...)
+			h2, e2 = e.ToHeaderedJSON()
+		}) {
+			return
+		}
+		if e1 != nil || e2 != nil || string(h1) != string(h2) {
+			ctx.Fail("C03/headered-form-not-repeatable/"+label, "two ToHeaderedJSON calls on one event (%s) give %q (%v) and %q (%v)", label, h1, e1, h2, e2)
+			return
+		}
+		if after := string(e.JSON()); after != before {
+			ctx.Fail("C03/headered-form-modifies-event/"+label, "ToHeaderedJSON changed the JSON of the event it was called on (%s): %q -> %q", label, before, after)
+			return
+		}
+		var again PDU
+		var aerr error
+		if vfCatch(ctx, "C03/headered-again/"+label, func() { again, aerr = NewEventFromHeaderedJSON(h2, false) }) {
+			return
+		}
+		if aerr != nil || again == nil || again.EventID() != orig.EventID {
+			ctx.Fail("C03/headered-form-not-repeatable/"+label, "the second headered form of the event (%s) does not parse back to it: %v; %q", label, aerr, h2)
+			return
+		}
+	}
 
 	// --- edits to unsigned / signatures / redaction never change the identity
 	cur := ev
